@@ -277,6 +277,31 @@ func (s *c19Stress) miner(r *Rng) {
 	}
 }
 
+// watcher registrations: many CSV / confirmation registrations and removals on the real RPC watcher while the miner
+// (above) and this worker walk the watch lists for new blocks
+func (s *c19Stress) watcherOps(r *Rng) {
+	k := 0
+	for !s.stopped() {
+		n := s.node()
+		if n.rpcW == nil {
+			time.Sleep(5 * time.Millisecond)
+			continue
+		}
+		id := fmt.Sprintf("w%d", k%64)
+		k++
+		switch r.Intn(4) {
+		case 0, 1:
+			n.rpcW.AddWaitForCsvTx(id, randHex(r, 32), 0, 1, uint32(1000+r.Intn(10000)), nil)
+		case 2:
+			n.rpcW.TxClaimed([]string{id, fmt.Sprintf("w%d", r.Intn(64))})
+		default:
+			_ = n.rpcW.HandleCsvTx(uint64(n.chain.Height()))
+		}
+		s.count("watcher")
+		time.Sleep(time.Duration(50+r.Intn(300)) * time.Microsecond)
+	}
+}
+
 // restart: a new service over the same store recovers the swaps while their messages keep arriving
 func (s *c19Stress) restarter(r *Rng, watcherKind string) {
 	for !s.stopped() {
@@ -320,7 +345,7 @@ func runC19Stress(args []string) error {
 		}
 		s := &c19Stress{n: n, svc: n.svc, to: n.to}
 		stresses = append(stresses, s)
-		workers := []func(*Rng){s.starter, s.starter, s.events, s.events, s.events, s.rpc, s.policyOps, s.miner, func(r *Rng) { s.restarter(r, cfg[0]) }}
+		workers := []func(*Rng){s.starter, s.starter, s.events, s.events, s.events, s.rpc, s.policyOps, s.miner, s.watcherOps, s.watcherOps, func(r *Rng) { s.restarter(r, cfg[0]) }}
 		for _, w := range workers {
 			wg.Add(1)
 			rr := NewRng(r.U64())
